@@ -23,7 +23,7 @@ def cases(tier, seed):
             out.append({'kind': 'norms', 'grid': list(g), 'layout': lay, 'cost': 10 * g[0] * g[1]})
         out.append({'kind': 'norms', 'grid': list(g), 'layout': 'poloidal' if g[0] % 2 else 'v_parallel', 'complex': True, 'cost': 10 * g[0] * g[1]})
         out.append({'kind': 'phi', 'grid': list(g), 'cost': 5 * g[0] * g[1]})
-    for g in ([(1, 2), (2, 2), (1, 3)] if tier == 'quick' else [(1, 2), (2, 1), (2, 2), (1, 3), (3, 1), (1, 4)]):
+    for g in ([(1, 1), (1, 2), (2, 2), (1, 3)] if tier == 'quick' else [(1, 1), (1, 2), (2, 1), (2, 2), (1, 3), (3, 1), (1, 4)]):          # incl. the one-process world
         for save in (2, 3):
             out.append({'kind': 'collector', 'grid': list(g), 'save': save, 'cost': 60 * g[0] * g[1]})
     # global min/max with a plot-only rank (it owns an empty block and must not influence the result), drawing rank first/middle/last
@@ -282,15 +282,17 @@ def _collector(case, V, st):
             slp = tuple(slice(int(a), int(b)) for a, b in zip(lp.starts, lp.ends))
             dc = DiagnosticCollector(comm, save, c.dt, g, phi)
             rows = []
+            latest = {}
             for k in KS:
                 tt = k * c.dt
                 g.getAllData()[:] = np.transpose(dense * (1 + 0.1 * k) + 0.01 * k, l.dims_order)[sl]
                 phi.getAllData()[:] = np.transpose(dense3 * (1 + 0.2 * k), lp.dims_order)[slp]
                 dc.collect(g, phi, tt)
                 dc.reduce()
-                if r == 0:
-                    i = k % save          # the slot of step k, whatever was collected before
-                    rows.append((k, i, (float(dc.diagnostics[0, i]), float(dc.l2PhiResult[i]), float(dc.l2GridResult[i]), float(dc.l1Result[i]), float(dc.nPartResult[i]),
+                latest[k % save] = k
+                # every slot filled so far is read after every reduce (a slot that was not collected again keeps its values)
+                for i, k_ in sorted(latest.items()) if r == 0 else ():
+                    rows.append((k_, i, (float(dc.diagnostics[0, i]), float(dc.l2PhiResult[i]), float(dc.l2GridResult[i]), float(dc.l1Result[i]), float(dc.nPartResult[i]),
                                         float(dc.min_val[i]), float(dc.max_val[i]), float(dc.KE_val[i]), dc.getLine(i))))
             return rows, [np.asarray(x) for x in g.eta_grid], c.dt
         return fn
